@@ -307,7 +307,7 @@ def run_probes(sub, host, only=None):
     """Compile (and, where `run:` is set and the probe is accepted, execute) all probes of a
     sub-directory in parallel. Returns {id: result} with result = meta + verdict fields."""
     probes = [p for p in list_probes(sub) if (only is None or p["id"] in only)]
-    outdir = os.path.join(API_BUILD, "probes", sub)
+    outdir = os.path.join(API_BUILD, "probes", "%s-%d" % (sub, os.getpid()))
 
     def one(p):
         r = compile_probe(p["path"], host, outdir)
@@ -318,8 +318,11 @@ def run_probes(sub, host, only=None):
             r["run_rc"], r["run_out"] = rc, out[-1500:]
         return p["id"], r
 
-    with concurrent.futures.ThreadPoolExecutor(max_workers=PAR) as ex:
-        return dict(ex.map(one, probes))
+    try:
+        with concurrent.futures.ThreadPoolExecutor(max_workers=PAR) as ex:
+            return dict(ex.map(one, probes))
+    finally:
+        shutil.rmtree(outdir, ignore_errors=True)
 
 
 def judge_probe(r):
